@@ -1,8 +1,18 @@
+import os, subprocess, sys
+
+
+def _pre(tier):
+    # carrier (ii): rebuild the no-libc probe that links tiny-start's real mem symbols from the repository's current tree
+    lib = os.path.dirname(os.path.dirname(os.path.abspath(__file__)))
+    return subprocess.call([sys.executable, os.path.join(lib, "build_probes.py"), "probe-mem", "dyn-debug", "dyn-release", "pie-release"], stdout=subprocess.DEVNULL)
+
+
 ID = "C08"
 CFG = {
     "level": "exploration",
-    "engine": "E1 vh",
+    "engine": "E1 vh + E4 probe (probe-mem)",
     "package": "c08", "bin": "c08",
+    "pre": _pre,
     "profiles": ["dev", "release"], "workers": 8,
     "rule": ("Carrier (i): /repo/tiny-start/src/symbols/mem.rs is copied at every build into harness/c08/memsyms "
              "(#![no_std] #![no_builtins], #[no_mangle] stripped, bodies untouched) and called through non-inlined "
@@ -19,7 +29,15 @@ CFG = {
              "both sides and the source; return value == dest; memcmp sign == reference sign on unsigned bytes; bcmp "
              "zero-ness; a fault on a guard page kills the worker and is reported by the crash policy. Non-trivial = "
              "n >= 16 (word path) with a non-zero misalignment, or an overlapping memmove, or a compare with a "
-             "differing byte; distinct by hash of the serialised case."),
+             "differing byte; distinct by hash of the serialised case. "
+             "Carrier (ii), sub-checks probe-exh / probe-rand (release workers): the no-libc executable probe-mem links tiny-start with "
+             "mem-symbols (the real, exported memcpy/memmove/memset/memcmp/bcmp) in builds dyn-debug, dyn-release, pie-release; one probe "
+             "process per build and worker is fed its share of the enumeration (memcpy n<=40 x 16 x 16 misalignments; memset n<=40 x 16 x 6 "
+             "int values; memmove n<=40 x every distance -(n+8)..=(n+8) x 16; memcmp/bcmp n<=40 x 16 x 16 x difference at none/first/middle/"
+             "last x 6 ordered pairs; plus compiler-inserted copies: struct assignment of 1/2/4 KiB, [u8; N] moves, copy_from_slice, fill, "
+             "copy_within, slice ==), performs each on static arenas with 64-byte red zones and echoes the bytes and return value, which the "
+             "driver compares with its own byte-loop reference; probe-rand: proptest lists of 1..12 cases with n up to 128 KiB. A probe that "
+             "dies (unbounded recursion without #![no_builtins]) is a violation `mem-symbols|probe crashed|<mode>`."),
     "assumptions": [
         "x86_64 only",
         "carrier (i) compiles the repository text in a separate no_builtins crate of a std binary; that tiny-start itself "
@@ -41,6 +59,6 @@ CFG = {
     ],
     "technique": "property-based testing: exhaustive small-domain enumeration plus proptest sampling against volatile byte-loop reference implementations, red zones and guard pages",
     "level_text": "exploration, with the stated small domain (n <= 40, all alignments, all overlaps, all fill bytes, all difference positions) enumerated exhaustively in both profiles",
-    "level_note": "carrier (i) only: the repository's mem.rs compiled out of tree under no_builtins; the linked no-libc artefact is exercised by carrier (ii)",
+    "level_note": "carrier (i): the repository's mem.rs compiled out of tree under no_builtins (guard pages); carrier (ii): the linked no-libc artefact probe-mem with the real tiny-start symbols and compiler-inserted calls (red zones only)",
     "timeout_quick": 600, "timeout_thorough": 3600,
 }
